@@ -390,15 +390,6 @@ Section Durability.
   Lemma bname_nonempty t : 0 <? Z.of_nat (List.length (bname t)) = true.
   Proof. rewrite bname_length. pose proof delim_pos. lia. Qed.
 
-  Definition extra (s : state) (e : event) : list name :=
-    match e with
-    | EWrite r now => if shall_rotate c (s_rot s) now (s_size s + rlen r) then [now] else []
-    | _ => []
-    end.
-
-  Lemma rot_stamps_cons s e h : rot_stamps c s (e :: h) = extra s e ++ rot_stamps c (step c s e) h.
-  Proof. destruct e; simpl; [destruct (shall_rotate c (s_rot s) now (s_size s + rlen r)); reflexivity | reflexivity | reflexivity]. Qed.
-
   Definition Inv (s : state) (acc : content) (used : list name) : Prop :=
     s_fp s = true /\
     exists ts last chunks cur,
@@ -426,17 +417,16 @@ Section Durability.
   Lemma step_inv s acc used e :
     Inv s acc used ->
     Forall (fun t => List.length t = width) (nows [e]) ->
-    NoDup (used ++ extra s e) ->
-    Inv (step c s e) (acc ++ written [e]) (used ++ extra s e).
+    NoDup (next_used c s used e) ->
+    Inv (step c s e) (acc ++ written [e]) (next_used c s used e).
   Proof.
     intros [Hfp [ts [last [chunks [cur [Hposts [Hbk [Hused [Hw [[Hloc Hcur] [Hcat [Hsz Hok]]]]]]]]]]]] Hnow Hnd.
-    destruct e as [r now|k|k b].
+    destruct e as [r now|k|k junk|k b|rot0' now0'].
     - (* ---- write *)
       simpl in Hnow. apply Forall_inv in Hnow.
-      cbn [step extra written flat_map app]. unfold write.
+      cbn [step next_used written flat_map app]. cbn [next_used] in Hnd. unfold write.
       destruct (shall_rotate c (s_rot s) now (s_size s + rlen r)) eqn:SR.
       + (* rotation *)
-        cbn [extra] in Hnd. rewrite SR in Hnd.
         unfold rotate. unfold fs_exists. rewrite Hcur, Hbk, bname_nonempty. cbn [andb].
         cbn [s_fs s_fp s_backup s_size s_rot s_posts s_removed].
         unfold fs_rename. rewrite Hcur. unfold fs_append.
@@ -475,7 +465,6 @@ Section Durability.
           intros K M. apply Forall_app; split; [apply Hok; assumption|]. constructor; [|constructor].
           right; right. exists r; reflexivity.
       + (* plain append *)
-        cbn [extra] in Hnd |- *. rewrite SR in *. rewrite app_nil_r in *.
         rewrite Hfp. unfold fs_append. rewrite Hcur.
         split; [reflexivity|].
         exists ts, last, chunks, (cur ++ [r]).
@@ -495,13 +484,12 @@ Section Durability.
           right; left. unfold shall_rotate in SR. rewrite K in SR. unfold size_shall_rotate in SR.
           rewrite bytes_app. unfold bytes at 2; simpl. lia.
     - (* ---- compress phase of a postRotate goroutine *)
-      cbn [step extra written flat_map app]. rewrite !app_nil_r.
+      cbn [step next_used written flat_map app]. rewrite !app_nil_r.
       destruct (nth_error (s_posts s) k) as [[f [|ph]]|] eqn:Nk;
         [|split; [assumption|]; exists ts, last, chunks, cur; repeat (split; try assumption)..].
       assert (Hf : exists t, In t ts /\ f = bname t).
       { apply nth_error_in_fst in Nk. rewrite Hposts in Nk. apply in_map_iff in Nk as [t [E Ht]]. eauto. }
       destruct Hf as [t [Ht ->]].
-      assert (Hndu : NoDup (ts ++ [last])) by (rewrite <- Hused; rewrite app_nil_r in Hnd; assumption).
       split; [assumption|]. exists ts, last, chunks, cur. cbn [s_fs s_fp s_backup s_size s_rot s_posts s_removed].
       split; [rewrite map_fst_set_phase; assumption|]. split; [assumption|]. split; [assumption|]. split; [assumption|].
       split; [|split; [assumption|split; assumption]].
@@ -531,8 +519,38 @@ Section Durability.
              apply get_put_other. intro E; apply bname_gz_inj in E; contradiction.
       + cbn [s_fs]. rewrite get_remove_other by (intro E; symmetry in E; revert E; apply bname_ne_file).
         rewrite get_put_other by (intro E; symmetry in E; revert E; apply bname_gz_ne_file). assumption.
+    - (* ---- compress phase that fails: the plain backup stays *)
+      cbn [step next_used written flat_map app]. rewrite !app_nil_r.
+      destruct (nth_error (s_posts s) k) as [[f [|ph]]|] eqn:Nk;
+        [|split; [assumption|]; exists ts, last, chunks, cur; repeat (split; try assumption)..].
+      assert (Hf : exists t, In t ts /\ f = bname t).
+      { apply nth_error_in_fst in Nk. rewrite Hposts in Nk. apply in_map_iff in Nk as [t [E Ht]]. eauto. }
+      destruct Hf as [t [Ht ->]].
+      split; [assumption|]. exists ts, last, chunks, cur. cbn [s_fs s_fp s_backup s_size s_rot s_posts s_removed].
+      split; [rewrite map_fst_set_phase; assumption|]. split; [assumption|]. split; [assumption|]. split; [assumption|].
+      split; [|split; [assumption|split; assumption]].
+      assert (Hsame : forall fs', fs' = s_fs s ->
+                decomposition c (mkst fs' (s_fp s) (s_backup s) (s_size s) (s_rot s) (set_phase k 1%nat (s_posts s)) (s_removed s)) chunks cur).
+      { intros fs' ->. split; [|assumption]. cbn [s_posts]. rewrite map_fst_set_phase.
+        eapply Forall2_located_impl; [|exact Hloc]. intros G ch _ HL. apply (located_frame s); auto. }
+      unfold compress_fail. destruct (c_compress c); cbn [negb]; [|apply Hsame; reflexivity].
+      destruct (fs_get (bname t) (s_fs s)) as [x|] eqn:Gf; [|apply Hsame; reflexivity].
+      destruct junk as [j|]; [|apply Hsame; reflexivity].
+      split.
+      + cbn [s_posts s_fs]. rewrite map_fst_set_phase.
+        eapply Forall2_located_impl; [|exact Hloc]. intros G ch HG HL.
+        rewrite Hposts in HG. apply in_map_iff in HG as [u [<- Hu]].
+        assert (Hwt : List.length t = width) by (rewrite Forall_forall in Hw; apply Hw; rewrite Hused; apply in_or_app; left; assumption).
+        assert (Hwu : List.length u = width) by (rewrite Forall_forall in Hw; apply Hw; rewrite Hused; apply in_or_app; left; assumption).
+        destruct (name_eq_dec u t) as [->|Hut].
+        * destruct HL as [HL|[HL _]]; [|congruence]. left. cbn [s_fs].
+          rewrite get_put_other by (apply bname_ne_gz; reflexivity). assumption.
+        * apply (located_frame s); cbn [s_fs s_removed]; [| |auto|assumption].
+          -- apply get_put_other. apply bname_ne_gz; congruence.
+          -- apply get_put_other. intro E; apply bname_gz_inj in E; contradiction.
+      + cbn [s_fs]. rewrite get_put_other by (intro E; symmetry in E; revert E; apply bname_gz_ne_file). assumption.
     - (* ---- delete phase *)
-      cbn [step extra written flat_map app]. rewrite !app_nil_r.
+      cbn [step next_used written flat_map app]. rewrite !app_nil_r.
       destruct (nth_error (s_posts s) k) as [[f [|[|ph]]]|] eqn:Nk;
         [split; [assumption|]; exists ts, last, chunks, cur; repeat (split; try assumption) | |
          split; [assumption|]; exists ts, last, chunks, cur; repeat (split; try assumption)..].
@@ -557,6 +575,20 @@ Section Durability.
           -- right; right. apply in_or_app; left; assumption.
       + cbn [s_fs]. rewrite get_remove_all_notin; [assumption|].
         intro Hi. apply outdated_sound in Hi; [|assumption]. destruct Hi as [_ [Hi _]]. congruence.
+    - (* ---- restart: the existing file is reopened for appending, its size counts *)
+      simpl in Hnow. apply Forall_inv in Hnow.
+      cbn [step next_used written flat_map app]. rewrite !app_nil_r.
+      unfold init. rewrite Hcur. cbn [s_fs s_fp s_backup s_size s_rot s_posts s_removed].
+      split; [reflexivity|]. exists ts, now0', chunks, cur. cbn [s_fs s_fp s_backup s_size s_rot s_posts s_removed].
+      split; [assumption|]. split; [reflexivity|].
+      split; [rewrite Hused, removelast_last; reflexivity|].
+      split.
+      { rewrite Hused, removelast_last. rewrite Hused in Hw. apply Forall_app in Hw as [Hw1 _].
+        apply Forall_app; split; [assumption | constructor; [assumption | constructor]]. }
+      split.
+      { split; [|assumption]. cbn [s_posts]. eapply Forall2_located_impl; [|exact Hloc].
+        intros G ch _ HL. apply (located_frame s); auto. }
+      split; [assumption|]. split; [reflexivity | assumption].
   Qed.
 End Durability.
 
@@ -577,14 +609,14 @@ Lemma run_inv c width ic : c_delim c <> [] ->
   forall h s acc used,
     Inv c width ic s acc used ->
     Forall (fun t => List.length t = width) (nows h) ->
-    NoDup (used ++ rot_stamps c s h) ->
-    Inv c width ic (run c s h) (acc ++ written h) (used ++ rot_stamps c s h).
+    stamps_distinct c s used h ->
+    Inv c width ic (run c s h) (acc ++ written h) (used_stamps c s used h).
 Proof.
   intros Hd. induction h as [|e h IH]; intros s acc used HI Hw Hnd.
   - simpl. rewrite !app_nil_r. assumption.
-  - rewrite rot_stamps_cons in *. rewrite written_cons. rewrite nows_cons in Hw. apply Forall_app in Hw as [Hw1 Hw2].
-    rewrite !app_assoc in *. cbn [run fold_left]. apply IH; [|assumption|assumption].
-    apply step_inv; [assumption|assumption|assumption|]. eapply nodup_app_l; eassumption.
+  - rewrite written_cons. rewrite nows_cons in Hw. apply Forall_app in Hw as [Hw1 Hw2].
+    destruct Hnd as [Hnd1 Hnd2]. rewrite app_assoc. cbn [run fold_left used_stamps]. apply IH; [|assumption|assumption].
+    apply step_inv; assumption.
 Qed.
 
 Lemma init_inv c width fs0 rot0 now0 :
@@ -617,7 +649,7 @@ Lemma durability c width fs0 rot0 now0 h :
   exists chunks cur,
     decomposition c s chunks cur /\
     concat chunks ++ cur = init_content c fs0 ++ written h /\
-    map fst (s_posts s) ++ [s_backup s] = map (backup_filename c) (now0 :: rot_stamps c (init c fs0 rot0 now0) h) /\
+    map fst (s_posts s) ++ [s_backup s] = map (backup_filename c) (used_stamps c (init c fs0 rot0 now0) [now0] h) /\
     s_size s = bytes cur /\
     (c_kind c = SizeLimit -> 0 < c_max_size c ->
      Forall (size_ok (c_max_size c) (init_content c fs0)) (chunks ++ [cur])).
@@ -625,9 +657,10 @@ Proof.
   intros Hd Hp [Hw Hnd] s. inversion Hw as [|? ? Hw0 Hw1]; subst.
   pose proof (run_inv c (List.length now0) (init_content c fs0) Hd h _ _ _ (init_inv c _ fs0 rot0 now0 Hp eq_refl) Hw1 Hnd) as HI.
   destruct HI as [_ [ts [last [chunks [cur [H1 [H2 [H3 [H4 [H5 [H6 [H7 H8]]]]]]]]]]]].
-  exists chunks, cur. fold s in H1, H2, H5, H7. repeat split; try assumption; try apply H5.
-  rewrite H1, H2. change ([now0] ++ rot_stamps c (init c fs0 rot0 now0) h) with (now0 :: rot_stamps c (init c fs0 rot0 now0) h) in H3.
-  rewrite H3, map_app. reflexivity.
+  exists chunks, cur. fold s in H1, H2, H5, H7.
+  split; [exact H5|]. split; [exact H6|]. split; [|split; [exact H7 | exact H8]].
+  rewrite H1, H2. change [backup_filename c last] with (map (backup_filename c) [last]).
+  rewrite <- map_app. f_equal. symmetry. exact H3.
 Qed.
 
 Lemma no_loss c width fs0 rot0 now0 h :
@@ -637,7 +670,7 @@ Lemma no_loss c width fs0 rot0 now0 h :
   exists chunks cur,
     decomposition c s chunks cur /\
     concat chunks ++ cur = init_content c fs0 ++ written h /\
-    map fst (s_posts s) ++ [s_backup s] = map (backup_filename c) (now0 :: rot_stamps c (init c fs0 rot0 now0) h).
+    map fst (s_posts s) ++ [s_backup s] = map (backup_filename c) (used_stamps c (init c fs0 rot0 now0) [now0] h).
 Proof.
   intros Hd Hp Hs s. destruct (durability c width fs0 rot0 now0 h Hd Hp Hs) as [chunks [cur [H1 [H2 [H3 _]]]]].
   exists chunks, cur. auto.
@@ -759,3 +792,43 @@ Section Gzip.
     split; [reflexivity|]. apply (read_back_on_disk (cnt, S d)).
   Qed.
 End Gzip.
+
+(* ------------------------------------------------------------------ a failed compression keeps the plain backup *)
+Lemma compress_fail_keeps c F junk fs x :
+  fs_get F fs = Some x -> fs_get F (compress_fail c F junk fs) = Some x.
+Proof.
+  intro H. unfold compress_fail. destruct (c_compress c); cbn [negb]; [|assumption]. rewrite H.
+  destruct junk as [j|]; [|assumption]. rewrite get_put_other; [assumption|].
+  intro E. apply (f_equal (@List.length N)) in E. rewrite app_length, gzip_ext_length in E. lia.
+Qed.
+
+(* ------------------------------------------------------------------ the configuration path *)
+Lemma config_reaches_rule path u :
+  let c := rule_of_config path u in
+  c_file c = path /\ c_delim c = backup_file_delimiter /\
+  c_gzip c = su_compress u /\ c_compress c = su_compress u /\
+  c_days c = Z.max 0 (su_keep_days u) /\
+  (su_size u = true ->
+   c_kind c = SizeLimit /\ c_max_size c = Z.max 0 (su_max_size u) * mega_bytes /\
+   c_max_backups c = Z.max 0 (su_max_backups u)) /\
+  (su_size u = false -> c_kind c = Daily).
+Proof.
+  unfold rule_of_config, rule_of_options, options_of_setup. cbn [o_size o_gzip o_keep_days o_max_size o_max_backups].
+  destruct (su_size u); cbn [c_file c_delim c_gzip c_compress c_days c_kind c_max_size c_max_backups];
+    repeat split; try reflexivity; try discriminate;
+    try (destruct (0 <? su_keep_days u) eqn:E; lia);
+    try (destruct (0 <? su_max_size u) eqn:E; lia);
+    try (destruct (0 <? su_max_backups u) eqn:E; lia).
+Qed.
+
+Lemma config_reaches_rule_positive path u :
+  su_size u = true -> 0 < su_max_size u -> 0 < su_max_backups u -> 0 < su_keep_days u ->
+  let c := rule_of_config path u in
+  c_kind c = SizeLimit /\ c_max_size c = su_max_size u * mega_bytes /\
+  c_max_backups c = su_max_backups u /\ c_days c = su_keep_days u /\
+  c_gzip c = su_compress u /\ c_compress c = su_compress u.
+Proof.
+  intros Hs H1 H2 H3 c. destruct (config_reaches_rule path u) as [_ [_ [G1 [G2 [G3 [G4 _]]]]]].
+  destruct (G4 Hs) as [K [M B]]. fold c in G1, G2, G3, K, M, B.
+  repeat split; try assumption; [rewrite M | rewrite B | rewrite G3]; f_equal; lia.
+Qed.
